@@ -178,3 +178,27 @@ def token_mutants(n, seed):
         out.append({"origin": f"mutant:{p['origin']}:{target}:{m.start()}:{m.group(0).strip()}->{new.strip()}",
                     "entry": p["entry"], "sources": srcs, "with_std": False})
     return out
+
+
+def corpus_dir_programs(sub):
+    """single-file programs of /verif/corpus/<sub> (entry class Main)"""
+    out = []
+    base = os.path.join(VERIF, "corpus", sub)
+    for name in sorted(os.listdir(base)):
+        pth = os.path.join(base, name)
+        if name.endswith(".sam") and os.path.isfile(pth):
+            out.append({"origin": f"corpus:{sub}/{name[:-4]}", "entry": "Main", "sources": {"Main": open(pth).read()}})
+    return out
+
+
+def arm_drop_mutants(d, name, programs, per_program, seed):
+    """One arm of one `match` deleted (harness/src/faults.rs, --arm-drop): the checker must reject the mutant
+    or the remaining arms must cover every value that reaches the match when the mutant runs."""
+    for i, p in enumerate(programs):
+        p["id"] = i
+    inp = os.path.join(d, f"{name}-armdrop-in.ndjson")
+    outp = os.path.join(d, f"{name}-armdrop.ndjson")
+    write_ndjson(inp, programs)
+    vh(["mutate", "--in", inp, "--out", outp, "--arm-drop", "--only", "arm-drop", "--per-program", per_program,
+        "--full", "--seed", seed], timeout=3000)
+    return read_ndjson(outp)
